@@ -38,7 +38,7 @@ def message(kinds=("async", "async", "async", "sync", "bad", "unknown"),
     def build(d: Dict[str, Any]) -> Dict[str, Any]:
         if d["kind"] != "bad":
             d.pop("bad")
-        if not d["cleanup"] or d["kind"] not in ("async", "shared", "late", "dyn"):
+        if not d["cleanup"] or d["kind"] not in ("async", "shared", "late", "dyn", "plaincls"):
             d.pop("cleanup")
         return d
 
